@@ -124,4 +124,236 @@ Proof.
   - intros H; inversion H.
 Qed.
 
+
+(* ------------------------------------------------------------------ next unused position
+   FULL STATEMENT aimed at (C15_next_unused): every append returns the current length; positions
+   strictly increase between clears (for every operation of the machine).
+   PROVED: for every appending primitive of the model - the four scalar record operations, the
+   batch constructors / resets (append_nullary_repeating) and the four batch helpers behind
+   every elementwise container operation - the new entries are appended (the old tape is a
+   prefix), the positions handed out are exactly old length, old length + 1, ... in iteration
+   order, and the tape grows by the number of positions.  MISSING: the same bookkeeping for
+   record_scalar_product / the matrix multiplications, and lifting through the register
+   machine (step) for every operation kind; both are covered by the correspondence check, which
+   compares every position of every step. *)
+Lemma nullary_repeating_app : forall n (t : tape), exists suf,
+  append_nullary_repeating ops t n = t ++ suf /\ length suf = n.
+Proof.
+  induction n as [|n IH]; intros t; cbn [append_nullary_repeating append_nullary fst].
+  - exists []. rewrite app_nil_r. auto.
+  - destruct (IH (t ++ [mkEntry (length t) (length t) (nzero ops) (nzero ops)])) as [suf [E L]].
+    eexists (_ :: suf). rewrite E, <- app_assoc. cbn. split; [reflexivity|lia].
+Qed.
+
+Lemma unary_loop_positions f : forall records (t : tape) t' ys, unary_loop ops t f records = (t', ys) ->
+  (exists suf, t' = t ++ suf) /\ length t' = length t + length records /\
+  map snd ys = seq (length t) (length records).
+Proof.
+  induction records as [|[x p] r IH]; intros t t' ys; cbn [unary_loop append_unary].
+  - intros E; inversion E; subst. split; [exists []; rewrite app_nil_r; reflexivity|]. cbn. split; [lia|reflexivity].
+  - destruct (unary_loop ops (t ++ [_]) f r) as [t2 yr] eqn:E2. intros E; inversion E; subst t' ys; clear E.
+    destruct (IH _ _ _ E2) as [[suf Es] [El Ep]]. rewrite app_length in El, Ep. cbn [length] in El, Ep.
+    split; [eexists; rewrite Es, <- app_assoc; reflexivity|]. split; [cbn; lia|].
+    cbn [map snd seq length]. f_equal. rewrite Ep. f_equal. lia.
+Qed.
+
+Lemma binary_both_positions f : forall xs ys (t : tape) t' zs, binary_both_loop t f xs ys = (t', zs) ->
+  (exists suf, t' = t ++ suf) /\ length t' = length t + length zs /\ map snd zs = seq (length t) (length zs).
+Proof.
+  induction xs as [|[x p] r IH]; intros [|[y q] yr] t t' zs; cbn [binary_both_loop append_binary];
+    try (intros E; inversion E; subst; split; [exists []; rewrite app_nil_r; reflexivity|]; cbn; split; [lia|reflexivity]).
+  destruct (binary_both_loop (t ++ [_]) f r yr) as [t2 zr] eqn:E2. intros E; inversion E; subst t' zs; clear E.
+  destruct (IH _ _ _ _ E2) as [[suf Es] [El Ep]]. rewrite app_length in El, Ep. cbn [length] in El, Ep.
+  split; [eexists; rewrite Es, <- app_assoc; reflexivity|]. split; [cbn; lia|].
+  cbn [map snd seq length]. f_equal. rewrite Ep. f_equal. lia.
+Qed.
+
+Lemma binary_x_positions f : forall xs ys (t : tape) t' zs, binary_x_loop ops t f xs ys = (t', zs) ->
+  (exists suf, t' = t ++ suf) /\ length t' = length t + length zs /\ map snd zs = seq (length t) (length zs).
+Proof.
+  induction xs as [|[x p] r IH]; intros [|[y q] yr] t t' zs; cbn [binary_x_loop append_unary];
+    try (intros E; inversion E; subst; split; [exists []; rewrite app_nil_r; reflexivity|]; cbn; split; [lia|reflexivity]).
+  destruct (binary_x_loop ops (t ++ [_]) f r yr) as [t2 zr] eqn:E2. intros E; inversion E; subst t' zs; clear E.
+  destruct (IH _ _ _ _ E2) as [[suf Es] [El Ep]]. rewrite app_length in El, Ep. cbn [length] in El, Ep.
+  split; [eexists; rewrite Es, <- app_assoc; reflexivity|]. split; [cbn; lia|].
+  cbn [map snd seq length]. f_equal. rewrite Ep. f_equal. lia.
+Qed.
+
+Lemma binary_y_positions f : forall xs ys (t : tape) t' zs, binary_y_loop ops t f xs ys = (t', zs) ->
+  (exists suf, t' = t ++ suf) /\ length t' = length t + length zs /\ map snd zs = seq (length t) (length zs).
+Proof.
+  induction xs as [|[x p] r IH]; intros [|[y q] yr] t t' zs; cbn [binary_y_loop append_unary];
+    try (intros E; inversion E; subst; split; [exists []; rewrite app_nil_r; reflexivity|]; cbn; split; [lia|reflexivity]).
+  destruct (binary_y_loop ops (t ++ [_]) f r yr) as [t2 zr] eqn:E2. intros E; inversion E; subst t' zs; clear E.
+  destruct (IH _ _ _ _ E2) as [[suf Es] [El Ep]]. rewrite app_length in El, Ep. cbn [length] in El, Ep.
+  split; [eexists; rewrite Es, <- app_assoc; reflexivity|]. split; [cbn; lia|].
+  cbn [map snd seq length]. f_equal. rewrite Ep. f_equal. lia.
+Qed.
+
+Lemma combine_maps {A B} : forall (a : list A) (b : list B), length a = length b ->
+  map snd (combine a b) = b /\ map fst (combine a b) = a.
+Proof.
+  induction a as [|u a IH]; intros [|w b] H; cbn in *; try discriminate; auto.
+  destruct (IH b ltac:(lia)) as [-> ->]. auto.
+Qed.
+
+Theorem next_unused_primitives :
+  (* scalar records: exactly one entry is appended, the record sits at the old length *)
+  (forall (t : tape) h x, rec_variable ops t h x =
+     (t ++ [mkEntry (length t) (length t) (nzero ops) (nzero ops)], mkRec x (Some h) (length t))) /\
+  (forall (t : tape) (x : rec R) h, r_hist x = Some h -> exists e,
+     rec_reset ops t x = (t ++ [e], mkRec (r_num x) (Some h) (length t))) /\
+  (forall (t : tape) f (x : rec R) h, r_hist x = Some h -> exists e v,
+     rec_unary ops t f x = (t ++ [e], mkRec v (Some h) (length t))) /\
+  (forall (t : tape) f (x y : rec R) t' z h, rec_binary ops t f x y = Ok (t', z) -> r_hist z = Some h ->
+     exists e, t' = t ++ [e] /\ r_idx z = length t) /\
+  (* batch constructors and resets: `elements` entries, positions old length, +1, ... *)
+  (forall (t : tape) h tensor sh data, length data = elements sh ->
+     exists suf, fst (c_variables ops t h tensor sh data) = t ++ suf /\ length suf = elements sh /\
+       map snd (c_data (snd (c_variables ops t h tensor sh data))) = seq (length t) (elements sh)) /\
+  (forall (t : tape) (x : cont R) h, c_hist x = Some h -> length (c_data x) = elements (c_shape x) ->
+     exists suf, fst (c_reset ops t x) = t ++ suf /\ length suf = elements (c_shape x) /\
+       map snd (c_data (snd (c_reset ops t x))) = seq (length t) (elements (c_shape x)) /\
+       map fst (c_data (snd (c_reset ops t x))) = map fst (c_data x)).
+Proof.
+  split; [reflexivity|]. split; [|split; [|split; [|split]]].
+  - intros t x h Hh. unfold rec_reset. rewrite Hh. cbn. eexists. reflexivity.
+  - intros t f x h Hh. unfold rec_unary. rewrite Hh. cbn. eexists _, _. reflexivity.
+  - intros t f x y t' z h. unfold rec_binary. destruct (negb _); [discriminate|].
+    destruct (r_hist x), (r_hist y); cbn; intros E; inversion E; subst; cbn; intros Hh;
+      try discriminate; eexists; split; reflexivity.
+  - intros t h tensor sh data Hl. unfold c_variables. cbn [fst snd c_data].
+    destruct (nullary_repeating_app (elements sh) t) as [suf [E L]]. exists suf. split; [exact E|]. split; [exact L|].
+    unfold incrementing_indexes. apply combine_maps. rewrite seq_length. exact Hl.
+  - intros t x h Hh Hl. unfold c_reset. rewrite Hh. cbn [fst snd c_data].
+    destruct (nullary_repeating_app (elements (c_shape x)) t) as [suf [E L]]. exists suf. split; [exact E|]. split; [exact L|].
+    unfold incrementing_indexes.
+    split; apply combine_maps; rewrite map_length, seq_length; exact Hl.
+Qed.
+
+(* ------------------------------------------------------------------ registers and tapes *)
+Lemma nth_set_nth {A} (d : A) : forall l k v j, nth j (set_nth d l k v) d = if Nat.eqb j k then v else nth j l d.
+Proof.
+  induction l as [|x l IH]; intros k v j.
+  - revert j. induction k as [|k IHk]; intros [|j]; cbn; try reflexivity.
+    + destruct j; reflexivity.
+    + rewrite IHk. destruct (Nat.eqb j k); [reflexivity|]. destruct j; reflexivity.
+  - destruct k, j; cbn; try reflexivity. apply IH.
+Qed.
+
+Lemma get_put (st : state) a o b : get (put st a o) b = if Nat.eqb b a then o else get st b.
+Proof. unfold get, put. cbn. apply nth_set_nth. Qed.
+
+Lemma get_set_tape (st : state) t tp b : get (set_tape st t tp) b = get st b.
+Proof. reflexivity. Qed.
+
+(* ------------------------------------------------------------------ clear + reset = a fresh start
+   FULL STATEMENT aimed at (C15_cycle_equiv): for any script P and any history ending with
+   "clear; reset all live inputs of P", running P gives the same values and derivatives as on a
+   fresh tape, for any number of cycles.
+   PROVED (cycle_is_fresh_start): from ANY machine state (any earlier history, any number of
+   earlier cycles), "clear list t; reset the inputs (in any chosen order)" leads to EXACTLY the
+   same machine state as "clear list t; create each input again as a new variable / new
+   variables container with the same numbers" - so every script run afterwards returns
+   identical results step by step (run_after_cycle).  What this leaves unproved is the frame
+   property: that the registers and lists P does not touch cannot influence it (the right-hand
+   machine still carries the old, unrelated registers and the other lists). *)
+Definition recreate (t a : nat) (o : obj) : @tm_op R :=
+  match o with
+  | ORec r => TVar a t (r_num r)
+  | OCont c => TCVar a t (c_tensor c) (c_shape c) (map fst (c_data c))
+  | ODead => TConst a (nzero ops)
+  end.
+
+Definition input_ok (t : nat) (o : obj) : Prop :=
+  obj_hist o = Some t /\
+  match o with
+  | OCont c => shape_valid (c_shape c) (length (c_data c)) = true /\
+               (c_tensor c || Nat.eqb (length (c_shape c)) 2) = true
+  | _ => True
+  end.
+
+Lemma reset_is_recreate (st : state) t a st1 v1 : input_ok t (get st a) ->
+  step ops st (TReset a) = Some (st1, v1) ->
+  exists v2, step ops st (recreate t a (get st a)) = Some (st1, v2).
+Proof.
+  intros [Hh Hw]. cbn [step]. destruct (get st a) as [r|c|] eqn:Eg; cbn [obj_hist] in Hh; try discriminate.
+  - cbn [obj_hist recreate step]. rewrite Hh. unfold on_tape.
+    destruct (tape_of st t) as [tp|]; [|discriminate].
+    unfold obj_reset, rec_reset, rec_variable. rewrite Hh. cbn.
+    intros E. inversion E; subst. eexists. reflexivity.
+  - cbn [obj_hist recreate step]. rewrite Hh. destruct Hw as [W1 W2]. rewrite map_length, W1, W2. cbn [negb orb].
+    unfold on_tape. destruct (tape_of st t) as [tp|]; [|discriminate].
+    unfold obj_reset, c_reset, c_variables. rewrite Hh. cbn.
+    intros E. inversion E; subst. eexists. reflexivity.
+Qed.
+
+Lemma reset_other (st : state) a st1 v1 b :
+  step ops st (TReset a) = Some (st1, v1) -> b <> a -> get st1 b = get st b.
+Proof.
+  cbn [step]. unfold skipped. intros E Hne.
+  assert (K : forall o, (match obj_hist o with
+                         | None => Some (st, Ok (VIdx []))
+                         | Some t => match tape_of st t with
+                                     | None => None
+                                     | Some tp => let '(tp', o', idx) := obj_reset ops tp o in
+                                                  Some (put (set_tape st t tp') a o', Ok (VIdx idx))
+                                     end
+                         end) = Some (st1, v1) -> get st1 b = get st b).
+  { intros o. destruct (obj_hist o) as [t|]; [|intros Q; inversion Q; reflexivity].
+    destruct (tape_of st t) as [tp|]; [|discriminate].
+    destruct (obj_reset ops tp o) as [[tp' o'] idx]. intros Q; inversion Q; subst.
+    rewrite get_put, get_set_tape. destruct (Nat.eqb_spec b a); [contradiction|reflexivity]. }
+  destruct (get st a) as [r|c|] eqn:Eg.
+  - apply (K (ORec r)). exact E.
+  - apply (K (OCont c)). exact E.
+  - inversion E; reflexivity.
+Qed.
+
+Lemma run_resets_recreate t (st : state) : forall ins st0 stf vs,
+  NoDup ins -> (forall a, In a ins -> get st0 a = get st a /\ input_ok t (get st a)) ->
+  tm_run ops st0 (map TReset ins) = Some (stf, vs) ->
+  exists vs', tm_run ops st0 (map (fun a => recreate t a (get st a)) ins) = Some (stf, vs').
+Proof.
+  induction ins as [|a r IH]; intros st0 stf vs Hnd Hin.
+  - cbn. intros E. inversion E. eexists. reflexivity.
+  - cbn [map tm_run]. destruct (step ops st0 (TReset a)) as [[st1 v1]|] eqn:E1; [|discriminate].
+    destruct (Hin a (or_introl eq_refl)) as [Ga Oa].
+    assert (Oa' : input_ok t (get st0 a)) by (rewrite Ga; exact Oa).
+    destruct (reset_is_recreate st0 t a st1 v1 Oa' E1) as [v2 E2]. rewrite Ga in E2. rewrite E2.
+    destruct (tm_run ops st1 (map TReset r)) as [[st2 vr]|] eqn:E3; [|discriminate].
+    intros E. inversion E; subst stf vs; clear E.
+    inversion Hnd as [|? ? Hna Hnd']; subst.
+    assert (Hin' : forall b, In b r -> get st1 b = get st b /\ input_ok t (get st b)).
+    { intros b Hb. destruct (Hin b (or_intror Hb)) as [Gb Ob]. split; [|exact Ob]. rewrite <- Gb.
+      apply (reset_other st0 a st1 v1 b E1). intros ->. contradiction. }
+    destruct (IH st1 st2 vr Hnd' Hin' E3) as [vs' E4]. rewrite E4. eexists. reflexivity.
+Qed.
+
+Theorem cycle_is_fresh_start (st : state) t ins stf vs :
+  NoDup ins -> (forall a, In a ins -> input_ok t (get st a)) ->
+  tm_run ops st (TClear t :: map TReset ins) = Some (stf, vs) ->
+  exists vs', tm_run ops st (TClear t :: map (fun a => recreate t a (get st a)) ins) = Some (stf, vs').
+Proof.
+  intros Hnd Hin. cbn [tm_run]. destruct (step ops st (TClear t)) as [[st0 v0]|] eqn:E0; [|discriminate].
+  destruct (tm_run ops st0 (map TReset ins)) as [[st1 vr]|] eqn:E1; [|discriminate].
+  intros E. inversion E; subst stf vs; clear E.
+  assert (Hin' : forall a, In a ins -> get st0 a = get st a /\ input_ok t (get st a)).
+  { intros a Ha. split; [|apply Hin; exact Ha]. revert E0. cbn [step].
+    destruct (tape_of st t); [|discriminate]. intros E; inversion E; subst. reflexivity. }
+  destruct (run_resets_recreate t st ins st0 st1 vr Hnd Hin' E1) as [vs' E2]. rewrite E2.
+  eexists. reflexivity.
+Qed.
+
+(* ... hence any script behaves identically afterwards (any number of cycles: st is arbitrary) *)
+Corollary run_after_cycle (st : state) t ins stf vs P :
+  NoDup ins -> (forall a, In a ins -> input_ok t (get st a)) ->
+  tm_run ops st (TClear t :: map TReset ins) = Some (stf, vs) ->
+  exists stf' vs', tm_run ops st (TClear t :: map (fun a => recreate t a (get st a)) ins) = Some (stf', vs') /\
+                   tm_run ops stf' P = tm_run ops stf P.
+Proof.
+  intros Hnd Hin E. destruct (cycle_is_fresh_start st t ins stf vs Hnd Hin E) as [vs' E'].
+  exists stf, vs'. split; [exact E'|reflexivity].
+Qed.
+
 End C15.
